@@ -158,6 +158,12 @@ def roundtrip_path(I, res, dtype, prop):
     if gone.d == 0 or (ex.d == 0 and ex.f[0] is not False):
         cx.viol("%s:delete:still-present" % dtype, "record still present after delete")
     compare(other, cx.coll_call(c, dtype, "find", "k0"), "other-after-delete")
+    # an update of a record that is not there (any more) does not create it: what SQL's UPDATE .. WHERE id = ? does
+    cx.coll_call(c, dtype, "update", Ptr([r1], 0))
+    back = cx.coll_call(c, dtype, "find", "k1")
+    ex = cx.coll_call(c, dtype, "exists", "k1")
+    if back.d == 0 or (ex.d == 0 and ex.f[0] is not False):
+        cx.viol("%s:update:creates-missing-record" % dtype, "update of a deleted record brought it back")
     if len(res.samples) < 2:
         res.samples.append(dict(check="roundtrip", type=dtype, record=repr(r1)[:300]))
 
@@ -410,6 +416,8 @@ def confirm(v):
                     roles.add("roundtrip:%s:field=%s" % (rc["type"], k))
         if r.get("present_after_delete"):
             roles.add("%s:delete:still-present" % rc["type"])
+        if r.get("present_after_late_update"):
+            roles.add("%s:update:creates-missing-record" % rc["type"])
         return (v.role in roles), dict(real=r, roles=sorted(roles))
     return None, None
 
